@@ -27,6 +27,12 @@ CLAIMED["C15"] = dict(
     note="Trusted: classification of the tool's exit status/stderr. Known findings (known_findings.json) are steered around by construction and each re-confirmed by a dedicated probe.",
     ref="DESIGN.md §2 C15")
 
+CLAIMED["C14"] = dict(
+    engine="P", technique="metamorphic property-based testing over generated programs (Hypothesis) with byte-wise directory comparison",
+    text="Four metamorphic relations (re-run in a fresh process, permutation of modules/items, insertion of an unreferenced type, insertion of non-bridge items) on generated programs with random abi_rename/rename/disable placement, for all seven backends; any byte difference in the compared files is a violation. Exploration of the input space; hash-seed dependence only as far as fresh processes expose it.",
+    note="Trusted: the list of aggregate files that may legitimately change when a type is added (index.mjs/index.d.ts, lib.g.dart, <lib>_ext.cpp).",
+    ref="DESIGN.md §2 C14")
+
 TODO_REASON = "check not built yet in this revision of /verif (planned, see DESIGN.md §2); not claimed until it is silent on the unchanged tree and kills its mutants"
 
 ALL = ["C%02d" % i for i in range(1, 18)]
